@@ -62,6 +62,7 @@ var fields = []field{
 	{"d", `-?\d+`, TInt},
 	{"e", `\S+`, TString},
 	{"f", `-?\d+\.\d+`, TFloat},
+	{"t", `\S+`, TString},
 }
 
 var fieldVals = map[string][]string{
@@ -71,9 +72,10 @@ var fieldVals = map[string][]string{
 	"d": {"0", "-1", "1", "-7", "5", "-9223372036854775808", "9223372036854775807", "-9223372036854775809", "62", "-0"},
 	"e": {"x-y", "foo", "a/b", "3", "1.5", "-", "é", "ff", "0x1F", "abc", "-12", "1e3"},
 	"f": {"-1.5", "0.0", "2.5", "-0.25", "10.0", "-100.5"},
+	"t": timeVals,
 }
 
-var timeVals = []string{"2021-03-04T05:06:07Z", "2019-12-31T23:59:59Z", "2021-03-04", "notatime", "2021-13-45T00:00:00Z", "1999-01-01T00:00:00Z"}
+var timeVals = []string{"2021-03-04T05:06:07Z", "2019-12-31T23:59:59Z", "2021-03-04", "2021-03-04", "notatime", "2021-13-45T00:00:00Z", "1999-01-01T00:00:00Z", "2020-11-12"}
 
 // GenLine produces one log line.
 func GenLine(r *ev.RNG) string {
@@ -87,9 +89,7 @@ func GenLine(r *ev.RNG) string {
 			parts = append(parts, f.key+"="+ev.PickOne(r, fieldVals[f.key]))
 		}
 	}
-	if r.Intn(3) == 0 {
-		parts = append(parts, "t="+ev.PickOne(r, timeVals))
-	}
+
 	return strings.Join(parts, " ")
 }
 
@@ -877,7 +877,7 @@ func (g *genCtx) simple() Stmt {
 		return &ExprStmt{&Call{Name: "settime", Args: []Expr{arg}}}
 	case k < 92 && g.o.Strptime:
 		g.f("strptime")
-		layout := ev.PickOne(r, []string{"2006-01-02T15:04:05Z07:00", "2006-01-02"})
+		layout := ev.PickOne(r, []string{"2006-01-02T15:04:05Z07:00", "2006-01-02", "2006-02-01"})
 		var s Expr = &StrLit{ev.PickOne(r, timeVals)}
 		if cs := g.capsOf(TString); len(cs) > 0 && r.Intn(3) > 0 {
 			if c := g.capref(ev.PickOne(r, cs)); c != nil {
